@@ -20,7 +20,10 @@ Oracles:
         A self-test proves on every run that TSan still reports a race between two strictly serialised threads.
   (iii) plain build: the shared containers and their buffers live in an mmap arena that is PROT_READ while readers
         run -> a write by a const member faults whatever the schedule (self-tested with a const_cast insert).
-  (iv)  nm over an object file that instantiates only the const operations: no writable static storage under amc::.
+  (iv)  nm over an object file that instantiates only the const operations, and over one that instantiates the
+        mutating members (range/initializer_list insert and assign, emplace, merge, swap, growth, SmallSet grow; int and
+        std::string elements): no writable static storage and no guard variable under amc:: -- threads may mutate
+        DISTINCT objects, so no member at all may keep hidden shared state.
 
 Exit codes of the harness: 0 ok, 1 result mismatch, 66 TSan report, 77 write to frozen arena, 78 other crash,
 3 hard error of the machinery (divergence while replaying a prefix, deadlock, hang) -> the check itself fails.
@@ -64,6 +67,8 @@ def _build_all(tier):
         "tsan": ("c20/harness.cpp", STD + ["-g", "-DC20_ARENA=0", "-fsanitize=thread"] + link, "c20-tsan", True),
         # reader-only object for the nm oracle (-O0: every reachable inline function is emitted)
         "readers": ("c20/readers.cpp", ["-std=c++17", "-O0"], "c20-readers", False),
+        # same for the mutating members (threads may mutate DISTINCT objects: no hidden shared state anywhere)
+        "writers": ("c20/writers.cpp", ["-std=c++17", "-O0"], "c20-writers", False),
     }
     if tier == "thorough":
         # plain build, only code outside /usr instrumented (amc headers + harness helpers)
@@ -98,7 +103,7 @@ def _writable_amc_symbols(obj):
     return seen, bad
 
 
-def _nm_oracle(ctx, readers_o):
+def _nm_oracle(ctx, objects):
     # self-test of the oracle itself: a function-local static under amc:: must be flagged
     probe = os.path.join(vlib.BUILD, "c20-nmprobe-%d" % os.getpid())
     with open(probe + ".cpp", "w") as fh:
@@ -114,16 +119,24 @@ def _nm_oracle(ctx, readers_o):
     if "amc::f()::n" not in names or "guard variable for amc::f()::s" not in names:
         print("C20 SELF-TEST FAILED: the nm oracle does not flag a static under amc:: (%s)" % names, file=sys.stderr)
         sys.exit(2)
-    seen, bad = _writable_amc_symbols(readers_o)
-    if seen < 100:
-        raise HarnessFailure("reader-only object has only %d amc:: symbols; the oracle would be vacuous" % seen)
-    for name, cls, section in bad:
-        short = re.sub(r"<.*>", "<>", name)[:80]
-        cmd = "nm -C --format=sysv %s | grep -F %s" % (readers_o, shlex.quote(name[:120]))
-        ctx.violation("c20|static|%s|writable-static" % short.replace("|", "/"),
-                      {"scenario": "reader-only object", "schedule": [], "cmd": cmd, "symbol": name, "class": cls, "section": section},
-                      "const reader operations reach writable static storage under amc:: : %s (nm class %s, section %s)" % (name, cls, section))
-    return seen, len(bad)
+    total_seen, total_bad, reported = 0, 0, set()
+    for label, obj in objects:
+        seen, bad = _writable_amc_symbols(obj)
+        if seen < 100:
+            raise HarnessFailure("%s object has only %d amc:: symbols; the oracle would be vacuous" % (label, seen))
+        total_seen += seen
+        for name, cls, section in bad:
+            if name in reported:
+                continue
+            reported.add(name)
+            total_bad += 1
+            short = re.sub(r"<.*>", "<>", name)[:80]
+            cmd = "nm -C --format=sysv %s | grep -F %s" % (obj, shlex.quote(name[:120]))
+            ctx.violation("c20|static|%s|writable-static" % short.replace("|", "/"),
+                          {"scenario": "%s object" % label, "schedule": [], "cmd": cmd, "symbol": name, "class": cls, "section": section},
+                          "%s reach writable static storage under amc:: (state shared by all threads and all container "
+                          "objects): %s (nm class %s, section %s)" % (label, name, cls, section))
+    return total_seen, total_bad
 
 
 # ------------------------------------------------------------------------------------------------------------------
@@ -343,7 +356,8 @@ def run(ctx):
     thorough = tier == "thorough"
     bins = _build_all(tier)
     selftests = _selftests(bins)
-    nm_symbols, nm_bad = _nm_oracle(ctx, bins["readers"])
+    nm_symbols, nm_bad = _nm_oracle(ctx, [("const reader operations", bins["readers"]),
+                                          ("mutating member functions", bins["writers"])])
     selftests["nm_oracle_flags_static_under_amc"] = True
 
     tsan_env = {"TSAN_OPTIONS": TSAN_OPTIONS}
@@ -424,7 +438,9 @@ def run(ctx):
         "member invoking the container's comparator as a non-const object writes into the shared container) -- FlatSet, "
         "SmallSet inline / large on std::set and on FlatSet backing; the comparator state is part of the lookup digests; "
         "comparison twins differ in the last element; SmallSet inline also against a LARGE twin of equal size, both orders",
-        "2-3 reader threads, 1-2 operations each; one thread may instead mutate its own private container",
+        "2-3 threads, 1-2 operations each; any thread may instead run `mut`: build, mutate (push/insert/erase, for sets also "
+        "range and initializer_list insertions that take FlatSet's merge path, operator=(il)) and destroy its OWN container -- "
+        "mut+mut pairs are the writers-on-distinct-objects case of the property",
         "operation granularity: all interleavings; function-entry granularity: preemption bound 1 (bound 2 only where stated "
         "in preemption_bound_completed); preemption inside a function body between two entries is not explored -- "
         "covered indirectly by oracles (ii) ThreadSanitizer (happens-before, schedule independent) and (iii) frozen arena",
